@@ -36,7 +36,7 @@ REPLY_CLASSES_V2 = ["valid", "badsig", "garbage", "signed_garbage", "none", "val
 FIELDS = {"call": ("e", "op", "cr"), "connreq": ("e",), "close": ("e", "c"), "connok": ("e", "c"), "connrefuse": ("e",), "connhang": ("e",),
           "tx": ("e", "c", "t", "ctr", "tok", "k", "wf", "reply"), "ret": ("e", "op", "r", "n", "stored"),
           "deliver": ("e", "c", "m", "k", "gen", "live", "i"), "devcall": ("e", "op"), "devret": ("e", "op", "raised", "online", "frames"), "lost": ("e", "c", "m", "i"), "peerclose": ("e", "c"),
-          "jumpauth": ("e",), "jumplife": ("e",), "timer": ("e",), "cancel": ("e",)}
+          "jumpauth": ("e",), "jumphalf": ("e",), "jumplife": ("e",), "timer": ("e",), "cancel": ("e",)}
 
 
 def norm_event(e):
@@ -358,7 +358,7 @@ class Session:
             else:
                 en += ["call_auth_good", "call_auth_bad"] + (["call_send"] if self.lan._protocol_version == 3 else [])
             if self.lan._protocol is not None:
-                en += ["jumpauth"] if self.version == 3 else []
+                en += ["jumpauth", "jumphalf"] if self.version == 3 else []
                 if self.lifetime is not None:
                     en.append("jumplife")
         else:
@@ -488,6 +488,11 @@ class Session:
     def jumpauth(self):
         vloop.VClock.offset += 12 * 3600 + 1
         return self._collect({"e": "jumpauth"})
+
+    def jumphalf(self):
+        """Half the key lifetime passes (6 h and a second)."""
+        vloop.VClock.offset += 6 * 3600 + 1
+        return self._collect({"e": "jumphalf"})
 
     def jumplife(self):
         """The wall clock jumps to just past (instant the current connection was established) + max_connection_lifetime."""
